@@ -1,5 +1,6 @@
 import SwimVerif.Driver
 import SwimVerif.Model.MapLane
+import SwimVerif.Model.EpochQueue
 
 namespace SwimVerif.Machines.C02
 open SwimVerif
@@ -13,6 +14,15 @@ def ml : Machine where
   minit := {}
   mstep := fun m line out => m.step line out
 
-def machines : List (String × Machine) := [("ml", ml)]
+/-- The coalescing queue with epochs (agent `EventQueue`, runtime `MapOperationQueue`). -/
+def eq : Machine where
+  σ := EQV.St
+  init := {}
+  step := EQV.stepLine
+  μ := EQV.Mon
+  minit := {}
+  mstep := fun m line out => m.step line out
+
+def machines : List (String × Machine) := [("ml", ml), ("eq", eq)]
 
 end SwimVerif.Machines.C02
